@@ -10,6 +10,7 @@
 (*            lon/lat only, x/y/z only, or both                            *)
 (*   radius : "1", "2", "1/2", ... the radius of the sphere every supplied *)
 (*            Cartesian coordinate lies on (MPAS ships metres, R = 6371229)*)
+(* plus offc: the shipped centres differ from the vertex centroid;         *)
 (* and a history is a sequence of public calls made before get_dual():    *)
 (*   "face_lon" (read a face coordinate), "construct_face_centers",        *)
 (*   "normalize" (normalize_cartesian_coordinates).                        *)
@@ -33,8 +34,10 @@ NodeProv   == { "lonlat", "xyz", "both" }
 CentreProv == { "computed", "lonlat", "xyz", "both" }
 One        == "1"
 
-VARIABLES nprov, cprov, radius, hist, nodeXyz, faceXyz, faceLL, done
-vars == <<nprov, cprov, radius, hist, nodeXyz, faceXyz, faceLL, done>>
+VARIABLES nprov, cprov, radius, hist, nodeXyz, faceXyz, faceLL, done,
+          offc,        \* the shipped centres are NOT the vertex centroid (circumcentres, Voronoi generators, box mid points)
+          centreIs     \* which point a face's centre is right now: "shipped" or "centroid"
+vars == <<nprov, cprov, radius, hist, nodeXyz, faceXyz, faceLL, done, offc, centreIs>>
 
 Tag(r)        == IF r = One THEN "unit" ELSE "R"
 SuppliesXyz(p) == p \in { "xyz", "both" }
@@ -47,6 +50,8 @@ Init == /\ nprov \in NodeProv /\ cprov \in CentreProv /\ radius \in Radii
         /\ nodeXyz = IF SuppliesXyz(nprov) THEN Tag(radius) ELSE "absent"
         /\ faceXyz = IF SuppliesXyz(cprov) THEN Tag(radius) ELSE "absent"
         /\ faceLL  = (cprov \in { "lonlat", "both" })
+        /\ offc \in (IF cprov = "computed" THEN { FALSE } ELSE BOOLEAN)
+        /\ centreIs = IF cprov = "computed" THEN "centroid" ELSE "shipped"
 
 Derive(x) == IF x = "absent" THEN "unit" ELSE x     \* derived Cartesian coordinates have unit length
 
@@ -68,12 +73,14 @@ Pre(op) == /\ ~done /\ Len(hist) < MaxPre /\ op \in PreOps
            /\ CASE op = "face_lon" -> ReadFaceLon
                 [] op = "construct_face_centers" -> ConstructCentres
                 [] op = "normalize" -> Normalize
-           /\ UNCHANGED <<nprov, cprov, radius, done>>
+           \* only an explicit construct_face_centers() may replace shipped centres
+           /\ centreIs' = IF op = "construct_face_centers" THEN "centroid" ELSE centreIs
+           /\ UNCHANGED <<nprov, cprov, radius, done, offc>>
 GetDual == /\ ~done /\ done' = TRUE
            /\ nodeXyz' = Derive(nodeXyz)
            /\ faceXyz' = Derive(faceXyz)
            /\ faceLL' = TRUE
-           /\ UNCHANGED <<nprov, cprov, radius, hist>>
+           /\ UNCHANGED <<nprov, cprov, radius, hist, offc, centreIs>>      \* get_dual() never moves a face centre
 Next == (\E op \in PreOps : Pre(op)) \/ GetDual
 
 (* ---- normative: the observation is a function of the mesh alone ------------------- *)
@@ -88,6 +95,11 @@ NormalizeLastUnmixes == (done /\ Len(hist) > 0 /\ hist[Len(hist)] = "normalize")
 \* both arrays supplied on the source's sphere and nothing recomputed: same sphere
 SameSphereWhenBothSupplied == (done /\ hist = << >> /\ SuppliesXyz(nprov) /\ SuppliesXyz(cprov)) => ~Mixed
 
+\* where the dual's nodes must be: at the face centres as they were before the call
+DualNodesAt == centreIs
+ShippedCentresSurvive == (cprov # "computed" /\ \A k \in 1..Len(hist) : hist[k] # "construct_face_centers") => centreIs = "shipped"
+
 Emit == done => PrintT(<<"PROV", [ nodes |-> nprov, centres |-> cprov, radius |-> radius, hist |-> hist,
+                                   offc |-> offc, dual_nodes_at |-> DualNodesAt,
                                    node_scale |-> nodeXyz, face_scale |-> faceXyz, mixed |-> Mixed ]>>)
 =============================================================================
